@@ -269,6 +269,17 @@ impl io::Read for ByteReader<Payload> {
     }
 }
 
+#[cfg(fe2o3_amqp_verif)]
+impl ByteReader<Payload> {
+    pub(crate) fn verif_new(inner: Vec<Payload>) -> Self {
+        Self { inner }
+    }
+
+    pub(crate) fn verif_chunk_lens(&self) -> Vec<usize> {
+        self.inner.iter().map(|p| p.len()).collect()
+    }
+}
+
 pub(crate) struct ByteReaderIter<'a> {
     pub inner: Vec<Iter<'a, u8>>,
 }
